@@ -290,11 +290,14 @@ def install(run):
 
         def factorise_geom_system(self):
             was = self.factorisation_current
+            done = False
             try:
-                return saved["C_Model"].factorise_geom_system(self)
+                r = saved["C_Model"].factorise_geom_system(self)
+                done = True
+                return r
             finally:
                 if not was and run.quiet == 0:
-                    self._rec("Factorise")
+                    self._rec("Factorise", exc=not done)      # exc: the factorisation itself raised (non-finite system): nothing was stored
 
         def _proj(self):
             npt = self.npt()
@@ -378,7 +381,7 @@ def install(run):
                 r = saved["C_Model"].interpolate_mini_models_svd(self, *a, **k)
                 return r
             finally:
-                self._rec("Interp", ok=bool(r[0]) if r is not None else False)
+                self._rec("Interp", ok=bool(r[0]) if r is not None else False, exc=r is None)      # exc: the call raised instead of returning a flag
 
         def get_final_results(self):
             r = saved["C_Model"].get_final_results(self)
@@ -556,7 +559,20 @@ def install(run):
             with np.errstate(all="ignore"):
                 e = K.trsbox_classes("trsbox", np.asarray(xopt, dtype=float), np.asarray(g, dtype=float), np.asarray(H, dtype=float),
                                      np.asarray(sl, dtype=float), np.asarray(su, dtype=float), float(delta), out[0], out[1])
-            run.emit("Kernel", name="trsbox", cl=e["cl"], insolver=True)
+            extra = {}
+            # the property quantifies over "scalings of g over 6 decades, delta over 8 decades": a call of the solver's own is judged when its data are
+            # inside a (much wider) scale domain - 1e-8 <= |g|_inf, delta <= 1e8 and curvature over the trust region at most 1e8 times the gradient.
+            # Outside it (a model fitted through points 1e-17 apart has |g| ~ 1e17, |H| ~ 1e34) the kernel's absolute thresholds (step length
+            # 1e-30, gradient 1e-18, from DFBOLS) decide, and the statement does not cover them: the event is logged without clauses
+            gi, hm = float(np.max(np.abs(g))), float(np.max(np.abs(H)))
+            if not (1e-8 <= gi <= 1e8 and 1e-8 <= float(delta) <= 1e8 and hm * float(delta) <= 1e8 * gi):
+                e["cl"] = []
+                extra["dom"] = "out"
+            if not all(c[2] for c in e["cl"]):
+                # a failed clause: keep the call's data (hex floats) so that the kernel can be re-run on its own
+                hx = lambda a: [float(v).hex() for v in np.asarray(a, dtype=float).ravel()]      # noqa: E731
+                extra["inp"] = dict(xopt=hx(xopt), g=hx(g), H=hx(H), sl=hx(sl), su=hx(su), delta=float(delta).hex(), d=hx(out[0]))
+            run.emit("Kernel", name="trsbox", cl=e["cl"], insolver=True, **extra)
         return out
 
     def k_geom(xbase, c, g, lower, upper, Delta, *a, **kw):
@@ -662,8 +678,9 @@ def record(inst, timeout=60.0, extra_return=None, rng_state=None):
     exc = None
     old = signal.signal(signal.SIGALRM, _alarm)
     signal.setitimer(signal.ITIMER_REAL, timeout)
-    if rng_state is not None:
-        np.random.seed(rng_state)
+    # the library draws from numpy's global generator (random directions); every recorded run starts from a state of its own, so that a run is
+    # the same in a worker process that has recorded other runs before and in a replay (C19 sets the state it wants to compare explicitly)
+    np.random.seed(rng_state if rng_state is not None else (int(inst.get("seed", 0)) & 0x7FFFFFFF))
     try:
         with warnings.catch_warnings():
             warnings.simplefilter("ignore")
